@@ -497,6 +497,12 @@ V_HARNESS(h_c17_highlight)
   unsigned long ms, me; int er0, ec0, r1_0, c1_0;
   V_INIT();
   ms = in_u16(); me = in_u16(); r1_0 = in_u8(); c1_0 = in_u8();
+#ifdef HL_MS
+  /* match position fixed by the grid, the state an earlier call left (row[1], col[1]) stays symbolic.  With ms, me symbolic every one of the
+     40 x rows cell iterations carries a symbolic early return and up to four guarded colour stores into the 1056 cell page: 9.4 GB after 273 s
+     for a 3 row slice (out of memory), no verdict in 900 s for the full page */
+  ms = HL_MS; me = HL_ME;
+#endif
   V_ASSUME(ms < me && me <= (unsigned long) HAYLEN);
   V_ASSUME(ms % ROWLEN != 40);			/* a match begins with a character, not with a row separator */
 #ifdef KNOWN_C17_HIGHLIGHT_ROW1
